@@ -3,6 +3,7 @@ package vc
 import (
 	"fmt"
 	"go/types"
+	"sort"
 	"math/big"
 
 	"golang.org/x/tools/go/ssa"
@@ -87,7 +88,17 @@ func (e *Exec) newError(st *State) *IfaceVal {
 }
 
 func intrErr(e *Exec, st *State, fr *Frame, args []Val, in ssa.Instruction, rt types.Type) []callRes {
-	return []callRes{{st, e.newError(st)}}
+	er := e.newError(st)
+	if f, ok := args[0].(*StringVal); ok {
+		if len(args) == 1 {
+			er.Msg = f
+		} else if f.Tag != nil && len(f.Tag.Segs) == 1 && f.Tag.Segs[0].Kind == "lit" {
+			if segs, ok := parseFormat(e, st, f.Tag.Segs[0].Lit, e.variadicArgs(st, args[1])); ok {
+				er.Msg = &StringVal{C: &ArrFill{Val: zeroOf(e.C, e.elemSort(types.Typ[types.Uint8]))}, Off: e.idx(0), Len: e.idx(0), Tag: &StrTag{Segs: segs}}
+			}
+		}
+	}
+	return []callRes{{st, er}}
 }
 
 func intrOpaqueString(e *Exec, st *State, fr *Frame, args []Val, in ssa.Instruction, rt types.Type) []callRes {
@@ -176,6 +187,12 @@ func parseFormat(e *Exec, st *State, format string, va []Val) ([]StrSeg, bool) {
 		a := va[ai]
 		ai++
 		iv, ok := a.(*IfaceVal)
+		if ok && (iv.Dyn == nil || iv.Opaque) && (verb == 's' || verb == 'v') {
+			// an error or other opaque value rendered as text: some string
+			flush()
+			segs = append(segs, StrSeg{Kind: "str", S: e.freshString(st, "fmtarg", 0)})
+			continue
+		}
 		if !ok || iv.Dyn == nil {
 			return nil, false
 		}
@@ -1055,4 +1072,154 @@ func intrUTF16Encode(e *Exec, st *State, fr *Frame, args []Val, in ssa.Instructi
 func init() {
 	intrinsics["unicode/utf16.Decode"] = intrUTF16Decode
 	intrinsics["unicode/utf16.Encode"] = intrUTF16Encode
+}
+
+// strings.Join on a concrete list of concrete strings is evaluated exactly; otherwise the result is abstract.
+func intrJoin(e *Exec, st *State, fr *Frame, args []Val, in ssa.Instruction, rt types.Type) []callRes {
+	l, ok := args[0].(*SliceVal)
+	sep, ok2 := args[1].(*StringVal)
+	if ok && ok2 {
+		if l.Obj == 0 || (l.Len.IsConst() && l.Len.C.Sign() == 0) {
+			return []callRes{{st, e.strConst("")}}
+		}
+		av := e.sliceBacking(st, l)
+		sepS, sepOK := concreteString(sep)
+		if av.Conds != nil && sepOK {
+			// conditional list of literals: the result is described by its segments (contents abstract)
+			var items []CondItem
+			okAll := true
+			for i, v := range av.List {
+				sv, isS := v.(*StringVal)
+				if !isS {
+					okAll = false
+					break
+				}
+				cs, isC := concreteString(sv)
+				if !isC {
+					okAll = false
+					break
+				}
+				items = append(items, CondItem{Cond: av.Conds[i], Lit: cs})
+			}
+			if okAll {
+				r := e.freshString(st, "condjoin", 0)
+				r.Tag = &StrTag{Segs: []StrSeg{{Kind: "condjoin", Lit: sepS, Items: items, Unordered: av.Unordered}}}
+				// the result is empty iff no element is present
+				none := e.C.True()
+				for _, it := range items {
+					none = e.C.And(none, e.C.Not(it.Cond))
+				}
+				st.assume(e.C.Eq(e.C.Eq(r.Len, e.idx(0)), none))
+				return []callRes{{st, r}}
+			}
+		}
+		if av.List != nil && av.Conds == nil && l.Off.IsConst() && l.Len.IsConst() && sepOK {
+			o, n := int(l.Off.C.Int64()), int(l.Len.C.Int64())
+			var parts []string
+			all := true
+			var res *StringVal
+			for i := o; i < o+n; i++ {
+				sv, isS := av.List[i].(*StringVal)
+				if !isS {
+					all = false
+					break
+				}
+				if cs, isC := concreteString(sv); isC {
+					parts = append(parts, cs)
+				} else {
+					all = false
+				}
+				if res == nil {
+					res = sv
+				} else {
+					res = e.strConcat(st, e.strConcat(st, res, sep), sv)
+				}
+			}
+			if all && av.Unordered {
+				var items []CondItem
+				for _, p := range parts {
+					items = append(items, CondItem{Cond: e.C.True(), Lit: p})
+				}
+				r := e.freshString(st, "unorderedjoin", 0)
+				r.Tag = &StrTag{Segs: []StrSeg{{Kind: "condjoin", Lit: sepS, Items: items, Unordered: true}}}
+				return []callRes{{st, r}}
+			}
+			if all {
+				joined := ""
+				for i, p := range parts {
+					if i > 0 {
+						joined += sepS
+					}
+					joined += p
+				}
+				return []callRes{{st, e.strConst(joined)}}
+			}
+			if res != nil && n <= 32 {
+				return []callRes{{st, res}}
+			}
+		}
+	}
+	e.noteAbstract(st, "strings.Join on a symbolic list")
+	return []callRes{{st, e.freshString(st, "join", 0)}}
+}
+
+func init() {
+	intrinsics["strings.Join"] = intrJoin
+}
+
+// sort.Strings on a (conditional) list of literals: reorders the entries; clears the unordered mark.
+func intrSortStrings(e *Exec, st *State, fr *Frame, args []Val, in ssa.Instruction, rt types.Type) []callRes {
+	l, ok := args[0].(*SliceVal)
+	if !ok || l.Obj == 0 {
+		return []callRes{{st, nil}}
+	}
+	av := e.sliceBacking(st, l)
+	if av.List == nil || !l.Off.IsConst() || l.Off.C.Sign() != 0 {
+		e.noteAbstract(st, "sort.Strings on a symbolic list")
+		return []callRes{{st, nil}}
+	}
+	n := len(av.List)
+	if av.Conds == nil {
+		if !l.Len.IsConst() || int(l.Len.C.Int64()) != n {
+			e.bail("sort.Strings on a sub-slice")
+		}
+	}
+	type ent struct {
+		s string
+		v Val
+		c *Term
+	}
+	es := make([]ent, n)
+	for i, v := range av.List {
+		sv, isS := v.(*StringVal)
+		if !isS {
+			e.bail("sort.Strings: non-string element")
+		}
+		cs, isC := concreteString(sv)
+		if !isC {
+			e.noteAbstract(st, "sort.Strings on symbolic strings")
+			return []callRes{{st, nil}}
+		}
+		es[i] = ent{cs, v, nil}
+		if av.Conds != nil {
+			es[i].c = av.Conds[i]
+		}
+	}
+	sort.SliceStable(es, func(i, j int) bool { return es[i].s < es[j].s })
+	nav := &ArrayVal{ElemT: av.ElemT, Len: av.Len, List: make([]Val, n)}
+	if av.Conds != nil {
+		nav.Conds = make([]*Term, n)
+	}
+	for i, x := range es {
+		nav.List[i] = x.v
+		if nav.Conds != nil {
+			nav.Conds[i] = x.c
+		}
+	}
+	e.storeBacking(st, l, nav)
+	return []callRes{{st, nil}}
+}
+
+func init() {
+	intrinsics["sort.Strings"] = intrSortStrings
 }
